@@ -1666,6 +1666,11 @@ class Interp:
         raise OutsideFragment(f"builtin {name}")
 
     def isinstance(self, v, cls):
+        hook = getattr(self, "isinstance_hook", None)
+        if hook is not None:
+            r = hook(v, cls)
+            if r is not None:
+                return r
         if isinstance(cls, tuple) and not (cls and isinstance(cls[0], str)):
             classes = cls
         else:
@@ -1769,11 +1774,15 @@ def _is_boolterm(e):
 
 
 def _load(node):
-    """Copy of a Store-context target as a Load-context expression."""
+    """Copy of a Store-context target as a Load-context expression (cached on the node)."""
+    cached = getattr(node, "_hv_load", None)
+    if cached is not None:
+        return cached
     new = ast.parse(ast.unparse(node), mode="eval").body
-    for n in ast.walk(new):
+    try:
+        node._hv_load = new
+    except Exception:  # noqa: BLE001
         pass
-    # keep source positions of literals irrelevant here
     return new
 
 
